@@ -1,6 +1,6 @@
 import ArcSwapModel.M.Frame
 import ArcSwapModel.Inv.ListInv
-import ArcSwapModel.Inv.Solo
+import ArcSwapModel.Inv.Solo2
 import ArcSwapModel.Props.C08
 import ArcSwapModel.Tie.DebtPayAll
 import ArcSwapModel.Tie.HelpingHelp
@@ -142,11 +142,27 @@ theorem C09_walk_bound_from_start (st : State) (t c out old : Nat) (isStore : Bo
     ∃ k, k ≤ 25 * L.length + 4 ∧ ((solo st t k).th t).op = .swapPay c out old isStore .fin :=
   walk_bound_from_start st t c out old isStore L hop hroad hnode
 
+/-- **every walk ends alone — `swap`, `store`, `compare_and_swap`, `rcu`, `into_inner`, container
+    drop**: in every reachable state a thread at the start of the debt walk of any of these
+    operations, with every other thread frozen wherever it is and no reader inside its fallback
+    window, reaches the end of the walk within `25 · nNodes + 4` of its own steps -/
+theorem C09_every_walk_bound_reachable {st : State} (h : Reachable st) (t a : Nat)
+    (hop : (st.th t).op.walkC? = some (a, .start)) (hnode : (st.th t).loc.node.isSome = true)
+    (hq : ∀ m, (st.sh.nodes m).control = .idle) :
+    ∃ k, k ≤ 25 * st.sh.nNodes + 4 ∧ ((solo st t k).th t).op.walkC? = some (a, .fin) :=
+  walkC_bound_reachable h t a hop hnode hq
+
+/-- non-vacuity: the walks the theorem is about -/
+example : (OpSt.dropc 0 1 .start).walkC? = some (1, .start) ∧ (OpSt.cinto 0 0 1 .start).walkC? = some (1, .start) ∧
+    (OpSt.swapPay 0 0 1 true .start).walkC? = some (1, .start) ∧
+    (OpSt.cas 0 .null none 0 2 0 (.pay { ptr := 1, debt := none } .start)).walkC? = some (1, .start) :=
+  ⟨rfl, rfl, rfl, rfl⟩
+
 /-!
 Not composed into the bound: a walk that meets a reader inside its fallback window (the walker then
 helps: a nested load and a hand-over attempt — bounded too, but the helping loop goes round again
-when the reader moves, `help_retry_means_interference`), and the operations around the walk
-(`compare_and_swap`'s and `rcu`'s retry loops).  The harness checks the bound directly: from
+when the reader moves, `help_retry_means_interference`), and the retry loops of
+`compare_and_swap` and `rcu` around their walk (each retry is caused by interference: above).  The harness checks the bound directly: from
 intermediate states sampled by the scheduler, all threads but one are frozen and that one must
 finish its operation within `60 + 40·(nodes+1)` steps (`solo*` families).
 -/
